@@ -9,7 +9,7 @@
 (* at the end its outcome is compared with what the library produced, and   *)
 (* the properties' formulas are evaluated on the LOGGED outcome.            *)
 (***************************************************************************)
-EXTENDS AyEval, Props_Eval, Props_C07, Json, IOUtils, TLCExt
+EXTENDS AyEval, Props_C07, Json, IOUtils, TLCExt
 
 CONSTANT Prop
 
@@ -30,9 +30,13 @@ LSource == NodeOfJ(T.tree)
 LTree == NodeOfJ(T.copytree)
 
 TInit == EInit /\ tid \in 1..Len(Traces)
-TStart == status = "idle" /\ StartOn(LTree) /\ UNCHANGED tid
+\* config.py:38: the !required check comes before anything is evaluated
+HasRequired(t) == \E p \in PathsOf(t) : At(t, p).k = "required"
+TRequired == /\ status = "idle" /\ HasRequired(LSource) /\ status' = "RequiredError"
+             /\ UNCHANGED <<work, stack, cache, heap, calls, evlog, reqsafe, tid>>
+TStart == status = "idle" /\ ~HasRequired(LSource) /\ StartOn(LTree) /\ UNCHANGED tid
 TStep == EStep /\ UNCHANGED tid
-TNext == TStart \/ TStep
+TNext == TRequired \/ TStart \/ TStep
 
 \* the library's outcome, as logged
 LStatus  == T.status
@@ -96,7 +100,7 @@ ModelVerdict ==
                             /\ C07_EvalHolds(work, status, MCallsData, LDocs, LSafes) THEN "holds" ELSE "violated"
       [] OTHER -> "none"
 
-Report == ETerminal => PrintT(<<"TRACE", T.tid, Compare, PropVerdict, ModelVerdict, "">>)
+Report == (ETerminal \/ status = "RequiredError") => PrintT(<<"TRACE", T.tid, Compare, PropVerdict, ModelVerdict, "">>)
 
 \* the specification must itself terminate on every logged tree (checked as a deadlock-free,
 \* finite exploration: a trace with no TRACE line was not consumed)
